@@ -10,6 +10,9 @@
 // section — answers nil or, following a per-scenario script, an error (k-th hand-over, every
 // n-th, the first k, from the k-th on, a random pattern, all). A pack passed to the client is
 // emitted whatever the client answers: the oracles are the same with and without errors.
+// The one exception to virtual time is queue-lull (lull.go): a batch sitting in the buffer while
+// no further record arrives is flushed by the loop's timed queue wait only — judged on elapsed
+// real time with a load probe next to it (late) and as a lower bound (early).
 package main
 
 import (
@@ -1154,6 +1157,11 @@ func main() {
 		nq, nd, nc, ns, nr = c.N(80, 1200), c.N(4, 24), c.N(8, 60), c.N(40, 480), c.N(16, 200)
 	}
 	cases(c, "queue-reconfig", nr, func(i int, r *vlib.Rand) { runReconfig(c, "queue-reconfig", i, r) })
+	nl := c.N(48, 480)
+	if race {
+		nl = c.N(16, 120)
+	}
+	cases(c, "queue-lull", nl, func(i int, r *vlib.Rand) { runLull(c, "queue-lull", i, r) })
 	cases(c, "queue-stop", ns, func(i int, r *vlib.Rand) { runStop(c, "queue-stop", i, r) })
 	cases(c, "queue-config", nq, func(i int, r *vlib.Rand) { runQueue(c, "queue-config", i, r, "config") })
 	cases(c, "queue-capacity", nc, func(i int, r *vlib.Rand) { runQueue(c, "queue-capacity", i, r, "capacity") })
@@ -1167,6 +1175,8 @@ func main() {
 		c.Floor("stop_scenarios_with_buffered_records_flushed_by_stop", 1, c.Counter("stop_scenarios_with_buffered_records_flushed_by_stop"))
 		c.Floor("reconfigurations_with_records_pending", 1, c.Counter("reconfigurations_with_records_pending"))
 		c.Floor("queue_size_changes_with_records_pending", 1, c.Counter("queue_size_changes_with_records_pending"))
+		c.Floor("lull_scenarios", 1, c.Counter("lull_scenarios"))
+		c.Floor("lull_batches_handed_over_within_deadline", 1, c.Counter("lull_batches_handed_over_within_deadline"))
 		if len(usableBadKinds) > 0 {
 			c.Floor("unencodable_records_handed_over", 2, c.Counter("unencodable_records_handed_over"))
 		}
